@@ -18,11 +18,18 @@ from hl7apy.core import Message, Segment, Field, Component, SubComponent, Group
 from hl7apy.parser import parse_segment, parse_message, parse_field
 
 # ---- op codes ------------------------------------------------------------------------------------------
-NOP, SET, ADD, IDX, DELI, SETLONG, ADDH, DELN, REM, COPY, SETELEM = range(11)
+(NOP, SET, ADD, IDX, DELI, SETLONG, ADDH, DELN, REM, COPY, SETELEM,
+ REATTACH, WRONGCLS, OTHERVER, OTHERLVL, SETWRONG, READ, SETBADVAL, IDXELEMLVL, SETELEMVER, DTCHANGE) = range(21)
 OPNAMES = ['nop', 'set-by-name', 'add(elem)', 'proxy[i]=v', 'del proxy[i]', 'set-by-long-name', 'add_<child>()+value',
-           'del by name', 'children.remove', 'copy from other element', 'set-by-name(elem)']
+           'del by name', 'children.remove', 'copy from other element', 'set-by-name(elem)',
+           'other.add(child of target)', 'add(elem of wrong class)', 'add(elem of other version)',
+           'add(elem of other validation level)', 'set-by-name(elem with another name)', 'read-only traversal',
+           'set-by-name(invalid value)', 'proxy[i]=elem of other validation level', 'set-by-name(elem of other version)',
+           'change datatype of populated child']
 CORE_OPS = [SET, ADD, IDX, DELI]
 FULL_OPS = [SET, ADD, IDX, DELI, SETLONG, ADDH, DELN, REM, COPY, SETELEM]
+# operations that are meant to be refused (or that stress attachment) - used by C10 / C12
+REJECT_OPS = [REATTACH, WRONGCLS, OTHERVER, OTHERLVL, SETWRONG, READ, SETBADVAL, IDXELEMLVL, SETELEMVER, DTCHANGE]
 
 TARGETS = {
     'seg': dict(names=['PID_3', 'PID_5', 'PID_8'], longs=['PATIENT_IDENTIFIER_LIST', 'PATIENT_NAME', 'ADMINISTRATIVE_SEX']),
@@ -32,16 +39,23 @@ TARGETS = {
 NIDX = 3  # repetition indices 0..2
 
 
-def actions(target, ops):
-    """the action alphabet: list of (op, name_index, rep_index); index 0 is the no-op"""
+def actions(target, ops, names=None, nidx=None):
+    """the action alphabet: list of (op, name_index, rep_index); index 0 is the no-op.
+    `names` restricts the child names used (indices into TARGETS[target]['names']), `nidx` the repetition indices"""
     acts = [(NOP, 0, 0)]
     nn = len(TARGETS[target]['names'])
+    if nidx is None:
+        nidx = NIDX
     for op in ops:
         for n in range(nn):
+            if names is not None and n not in names:
+                continue
             if op == SETLONG and TARGETS[target]['longs'][n] is None:
                 continue
-            if op in (IDX, DELI, REM):
-                for i in range(NIDX):
+            if op in (WRONGCLS, READ) and n != (names[0] if names else 0):
+                continue   # the child name is irrelevant for these
+            if op in (IDX, DELI, REM, REATTACH, IDXELEMLVL):
+                for i in range(nidx if op != REATTACH else 2):
                     acts.append((op, n, i))
             else:
                 acts.append((op, n, 0))
@@ -91,22 +105,22 @@ def make(target, init, level):
         m.pid = 'PID|||1||S'
         model = [('EVN', 'EVN||2020'), ('PID', 'PID|||1||S')]
         if init >= 1:
-            m.nk1 = 'NK1|a'
-            m.add(parse_segment('NK1|b', version='2.5', validation_level=level))
-            model += [('NK1', 'NK1|a'), ('NK1', 'NK1|b')]
+            m.nk1 = 'NK1|1'
+            m.add(parse_segment('NK1|2', version='2.5', validation_level=level))
+            model += [('NK1', 'NK1|1'), ('NK1', 'NK1|2')]
         m.pv1 = 'PV1||I'
         model += [('PV1', 'PV1||I')]
         if init >= 1:
-            m.obx = 'OBX|c'
-            m.al1 = 'AL1|d'
-            model += [('OBX', 'OBX|c'), ('AL1', 'AL1|d')]
+            m.obx = 'OBX|3'
+            m.al1 = 'AL1|4'
+            model += [('OBX', 'OBX|3'), ('AL1', 'AL1|4')]
         return m, model
     raise ValueError(target)
 
 
 def _child_text(target, name, token):
-    if target == 'msg':
-        return '%s|%s' % (name, token)
+    if target == 'msg':   # the first field of NK1/OBX/AL1 is an SI: numeric tokens are valid under STRICT too
+        return '%s|%s' % (name, token.replace('V', '1'))
     return token
 
 
@@ -119,7 +133,7 @@ def _new_child(target, name, token, level, parent=None):
         c = Component(name, version='2.5', validation_level=level)
         c.value = token
         return c
-    return parse_segment('%s|%s' % (name, token), version='2.5', validation_level=level)
+    return parse_segment(_child_text('msg', name, token), version='2.5', validation_level=level)
 
 
 def _other(target, level):
@@ -129,25 +143,100 @@ def _other(target, level):
     if target == 'fld':
         return parse_field('P^Q^^^^^R', name='PID_5', version='2.5', validation_level=level), \
             {'XPN_1': 'P', 'XPN_2': 'Q', 'XPN_7': 'R'}
-    m = parse_message('MSH|^~\\&|||||2020||ADT^A01^ADT_A01|2|P|2.5\rEVN||2020\rPID|||2||T\rNK1|p\rNK1|q\rPV1||O\rOBX|r\rAL1|s',
+    m = parse_message('MSH|^~\\&|||||2020||ADT^A01^ADT_A01|2|P|2.5\rEVN||2020\rPID|||2||T\rNK1|5\rNK1|6\rPV1||O\rOBX|7\rAL1|8',
                       validation_level=level, find_groups=False)
-    return m, {'NK1': 'NK1|p', 'OBX': 'OBX|r', 'AL1': 'AL1|s'}
+    return m, {'NK1': 'NK1|5', 'OBX': 'OBX|7', 'AL1': 'AL1|8'}
 
 
 # ---- one step: real element and model --------------------------------------------------------------------------
-def apply_real(target, el, act, step, level):
-    """perform the action on the real element; raises whatever hl7apy raises"""
+def apply_real(target, el, act, step, level, other=None, offered=None):
+    """perform the action on the real element; raises whatever hl7apy raises.
+    `other` is a second element of the same kind (for re-attachment); `offered` (a list) receives the child object
+    that was offered to the target, if the action offers one"""
     op, n, i = act
     name = TARGETS[target]['names'][n]
     t = _child_text(target, name, tok(step))
+    if offered is None:
+        offered = []
+    olevel = 1 if level == 2 else 2
     if op == NOP:
+        return
+    if op == REATTACH:
+        c = getattr(el, name.lower())[i]
+        other.add(c)
+        return
+    if op == WRONGCLS:
+        c = Segment('PID', version='2.5', validation_level=level) if target != 'msg' else \
+            Field('PID_3', version='2.5', validation_level=level)
+        offered.append(c)
+        el.add(c)
+        return
+    if op in (OTHERVER, SETELEMVER):
+        if target == 'seg':
+            c = Field(name, version='2.4', validation_level=level)
+            c.value = tok(step)
+        elif target == 'fld':
+            c = Component(name, version='2.4', validation_level=level)
+            c.value = tok(step)
+        else:
+            c = parse_segment(t, version='2.4', validation_level=level)
+        offered.append(c)
+        if op == OTHERVER:
+            el.add(c)
+        else:
+            setattr(el, name.lower(), c)
+        return
+    if op in (OTHERLVL, IDXELEMLVL):
+        c = _new_child(target, name, tok(step), olevel)
+        offered.append(c)
+        if op == OTHERLVL:
+            el.add(c)
+        else:
+            getattr(el, name.lower())[i] = c
+        return
+    if op == SETWRONG:
+        wrong = TARGETS[target]['names'][(n + 1) % len(TARGETS[target]['names'])]
+        c = _new_child(target, wrong, tok(step), level)
+        offered.append(c)
+        setattr(el, name.lower(), c)
+        return
+    if op == READ:
+        if target == 'seg':
+            getattr(el, name.lower())
+            el.pid_7.ts_1.value
+            el.pid_11.xad_1.sad_1
+        elif target == 'fld':
+            el.xpn_1.fn_1.value
+        else:
+            getattr(el, name.lower())
+            el.pv2.pv2_3.ce_1
+            el.adt_a01_insurance.in1.in1_2
+        return
+    if op == SETBADVAL:
+        # a value that STRICT refuses for the child (a second repetition separator inside / an invalid date)
+        if target == 'seg':
+            el.pid_7 = 'notadate' if n == 0 else ('2020^x^y' if n == 1 else '20201399')
+        elif target == 'fld':
+            setattr(el, name.lower(), 'a&b&c&d&e&f&g&h&i&j')
+        else:
+            setattr(el, name.lower(), '%s|%s|||||||||||||||||||||||||||||||||||||||||||||||||||x' % (name, tok(step)))
+        return
+    if op == DTCHANGE:
+        if target == 'seg':
+            getattr(el, name.lower())[0].datatype = 'CE'
+        elif target == 'fld':
+            getattr(el, name.lower())[0].datatype = 'CE'
+        else:
+            getattr(el, name.lower())[0].children[0].datatype = 'CE'
         return
     if op == SET:
         setattr(el, name.lower(), t)
     elif op == SETLONG:
         setattr(el, TARGETS[target]['longs'][n].lower(), t)
     elif op == ADD:
-        el.add(_new_child(target, name, tok(step), level))
+        c = _new_child(target, name, tok(step), level)
+        offered.append(c)
+        el.add(c)
     elif op == ADDH:
         if target == 'seg':
             c = el.add_field(name)
@@ -157,7 +246,7 @@ def apply_real(target, el, act, step, level):
             c.value = t
         else:
             c = el.add_segment(name)
-            setattr(c, '%s_1' % name.lower(), tok(step))
+            setattr(c, '%s_1' % name.lower(), tok(step).replace('V', '1'))
     elif op == IDX:
         getattr(el, name.lower())[i] = t
     elif op == DELI:
@@ -167,10 +256,12 @@ def apply_real(target, el, act, step, level):
     elif op == REM:
         el.children.remove(getattr(el, name.lower())[i])
     elif op == COPY:
-        other, _ = _other(target, level)
-        setattr(el, name.lower(), getattr(other, name.lower()))
+        src, _ = _other(target, level)
+        setattr(el, name.lower(), getattr(src, name.lower()))
     elif op == SETELEM:
-        setattr(el, name.lower(), _new_child(target, name, tok(step), level))
+        c = _new_child(target, name, tok(step), level)
+        offered.append(c)
+        setattr(el, name.lower(), c)
     else:
         raise ValueError(op)
 
@@ -213,7 +304,7 @@ def apply_model(target, model, act, step, level):
 
 _OTHER_VALUES = {'seg': {'PID_3': 'P', 'PID_5': 'R', 'PID_8': 'T'},
                  'fld': {'XPN_1': 'P', 'XPN_2': 'Q', 'XPN_7': 'R'},
-                 'msg': {'NK1': 'NK1|p', 'OBX': 'OBX|r', 'AL1': 'AL1|s'}}
+                 'msg': {'NK1': 'NK1|5', 'OBX': 'OBX|7', 'AL1': 'AL1|8'}}
 
 
 def _other_values(target):
@@ -255,3 +346,157 @@ def decode(target, ops, a):
 def describe(target, act, step):
     op, n, i = act
     return '%s %s[%d] <- %s' % (OPNAMES[op], TARGETS[target]['names'][n], i, tok(step))
+
+
+# ---- observers (read private attributes of ElementList; they never write) ------------------------------------------
+def _walk(el, seen=None):
+    yield el
+    for c in list(el.children.list):
+        for x in _walk(c):
+            yield x
+
+
+def check_tree(roots):
+    """C10 invariant over one or more trees.  Returns None when consistent, else a description."""
+    listed_by = {}
+    for root in roots:
+        for e in _walk(root):
+            if e.__class__.__name__ == 'SubComponent':
+                continue
+            ch = e.children
+            lst = ch.list
+            # parent pointers, single listing, one version / level per tree
+            for k, c in enumerate(lst):
+                if c.parent is not e:
+                    return '%r lists %r whose parent is %r' % (e, c, c.parent)
+                if id(c) in listed_by:
+                    return '%r is listed by both %r and %r' % (c, listed_by[id(c)], e)
+                listed_by[id(c)] = e
+                if c.version != e.version:
+                    return '%r (version %s) has child %r of version %s' % (e, e.version, c, c.version)
+                if c.validation_level != e.validation_level:
+                    return '%r (level %s) has child %r of level %s' % (e, e.validation_level, c, c.validation_level)
+            # by-name index == projection of the list, in order
+            names = []
+            for c in lst:
+                if c.name not in names:
+                    names.append(c.name)
+            for nm in names:
+                proj = [c for c in lst if c.name == nm]
+                idx = ch.indexes.get(nm, [])
+                if len(idx) != len(proj) or any(a is not b for a, b in zip(idx, proj)):
+                    return '%r: by-name index of %s is %r but the list holds %r' % (e, nm, idx, proj)
+            for nm, idx in ch.indexes.items():
+                for c in idx:
+                    if not any(c is x for x in lst):
+                        return '%r: by-name index of %s holds %r which is not in the list' % (e, nm, c)
+            for nm, tl in ch.traversal_indexes.items():
+                for c in tl:
+                    if any(c is x for x in lst):
+                        return '%r: traversal child %r is also a real child' % (e, c)
+                    if c.traversal_parent is not e:
+                        return '%r: traversal child %r has traversal parent %r' % (e, c, c.traversal_parent)
+            # the public views agree
+            if len(ch) != len(lst):
+                return '%r: len(children) %d != %d' % (e, len(ch), len(lst))
+            it = list(iter(ch))
+            if len(it) != len(lst) or any(a is not b for a, b in zip(it, lst)):
+                return '%r: iteration %r differs from list %r' % (e, it, lst)
+            for k, c in enumerate(lst):
+                if ch[k] is not c:
+                    return '%r: children[%d] is not the listed child' % (e, k)
+                if c not in ch:
+                    return '%r: listed child %r not "in" children' % (e, c)
+            for nm in names:
+                if nm is None:
+                    continue
+                try:
+                    proxy = ch.get(nm)
+                except Exception as ex:  # lookup by name of a listed child must work
+                    return '%r: lookup of listed child name %s raised %r' % (e, nm, ex)
+                proj = [c for c in lst if c.name == nm]
+                got = list(proxy) if proxy is not None else []
+                if len(got) != len(proj) or any(a is not b for a, b in zip(got, proj)):
+                    return '%r: lookup by name %s gives %r, list holds %r' % (e, nm, got, proj)
+                if len(proxy) != len(proj):
+                    return '%r: len(proxy %s) = %d, list holds %d' % (e, nm, len(proxy), len(proj))
+    return None
+
+
+def snapshot(el):
+    """encoding + identity listing of the real children, recursively (C12 observation)"""
+    def ids(e):
+        if e.__class__.__name__ == 'SubComponent':
+            return (id(e),)
+        return (id(e), tuple(ids(c) for c in e.children.list))
+    try:
+        enc = el.to_er7()
+    except Exception as ex:
+        enc = 'to_er7 raised %s' % type(ex).__name__
+    return enc, ids(el)
+
+
+def half_attached(c):
+    """True iff c claims a parent that does not list it"""
+    p = c._parent if hasattr(c, '_parent') else None
+    if p is None:
+        return False
+    return not any(x is c for x in p.children.list)
+
+
+# ---- generic runner for the invariant (C10) and atomicity (C12) observations -------------------------------------
+def run_checks(target, init, level, acts, mode, trace=None):
+    """mode 'inv'   : after EVERY operation (accepted or refused) the trees of target and `other` are consistent
+       mode 'atomic': an operation that raises leaves target, `other` and the enclosing root unchanged and the
+                      offered child not half-attached
+    returns True / False; `trace` (a list) receives a readable account"""
+    reset_defaults()
+    el, _ = make(target, init, level)
+    other, _ = make(target, 0, level)
+    root = el
+    if target == 'seg':
+        root = Message('ADT_A01', version='2.5', validation_level=level)
+        root.msh.msh_7 = '2020'
+        root.add(el)
+    if mode == 'inv':
+        msg = check_tree([root, other])
+        if msg:
+            if trace is not None:
+                trace.append('initial state inconsistent: ' + msg)
+            return False
+    for step, act in enumerate(acts, 1):
+        before = (snapshot(root), snapshot(other)) if mode == 'atomic' else None
+        offered = []
+        try:
+            apply_real(target, el, act, step, level, other, offered)
+            raised = None
+        except Exception as e:
+            raised = e
+        if trace is not None:
+            trace.append('%d. %s%s' % (step, describe(target, act, step), ' -> raised %s: %s' % (type(raised).__name__, raised)
+                                       if raised is not None else ' -> accepted'))
+            try:
+                trace.append('      target %r   other %r' % (el.to_er7(), other.to_er7()))
+            except Exception as e:
+                trace.append('      (to_er7 raised %r)' % (e,))
+        if mode == 'inv':
+            msg = check_tree([root, other])
+            if msg:
+                if trace is not None:
+                    trace.append('   INCONSISTENT: ' + msg)
+                return False
+        elif raised is not None:
+            after = (snapshot(root), snapshot(other))
+            if after != before:
+                if trace is not None:
+                    trace.append('   NOT ATOMIC: before %r / %r\n               after  %r / %r' % (
+                        before[0][0], before[1][0], after[0][0], after[1][0]))
+                    if before[0][0] == after[0][0] and before[1][0] == after[1][0]:
+                        trace.append('   (same encodings, but the listed children differ)')
+                return False
+            for c in offered:
+                if half_attached(c):
+                    if trace is not None:
+                        trace.append('   HALF-ATTACHED: refused child %r keeps parent %r which does not list it' % (c, c._parent))
+                    return False
+    return True
